@@ -214,6 +214,16 @@ func (c *ctx) want(check string) bool {
 	return false
 }
 
+// has reports whether the filter explicitly names the word (unlike want, false for an empty filter).
+func (c *ctx) has(word string) bool {
+	for _, f := range strings.Split(c.filter, ",") {
+		if f == word {
+			return true
+		}
+	}
+	return false
+}
+
 // guarded runs f under recover and a watchdog.
 func guarded(limit time.Duration, f func()) (panicked string, timedOut bool) {
 	done := make(chan string, 1)
